@@ -23,10 +23,11 @@ def harnesses(tier):
             H.append(BHarness('S1_antisym_%s_%s' % (case.lower(), n), 'c05_hllc.cpp', 'h_s1_antisym', defs=ndefs(n) + ['CASE_' + case], noinline=True, tie_free=True, strict=True, split=4, timeout=1500, maxpaths=20000, stubs={'~sample_vacuum_generation': hook_vacgen},
                 what='HLLC flux antisymmetry: F(R,L,-n) == -F(L,R,n) for mass, 3 momentum components and energy, on every tie-free feasible path pair (%s)' % {'NONVAC': 'both states non-vacuum, incl. vacuum generation', 'VACL': 'left state vacuum', 'VACR': 'right state vacuum'}[case],
                 bound='gamma in (1.00000001,2], densities/pressures >= 0, velocities and face velocity arbitrary reals, normal = %s; loop-free; exclusions: ties of computed comparisons; computed quantities guarded by +DBL_MIN within 2^-940 of zero; rounded fan edges misordered (SL>=SR) on vacuum-generation paths; inputs are 0 or in [2^-100,2^100] in magnitude (no overflow/underflow)' % (NORMALS[n],)))
-    for case in ('NONVAC', 'VACL', 'VACR'):
-        H.append(BHarness('S2_galilean_%s' % case.lower(), 'c05_hllc.cpp', 'h_s2_galilean', defs=ndefs(normals[0]) + ['CASE_' + case], noinline=True, tie_free=True, strict=True, split=4, timeout=1500, maxpaths=20000, stubs={'~sample_vacuum_generation': hook_vacgen},
+    for n in normals:
+      for case in ('NONVAC', 'VACL', 'VACR'):
+        H.append(BHarness('S2_galilean_%s%s' % (case.lower(), '' if n == 'xp' else '_' + n), 'c05_hllc.cpp', 'h_s2_galilean', defs=ndefs(n) + ['CASE_' + case], noinline=True, tie_free=True, strict=True, split=4, timeout=1500, maxpaths=20000, stubs={'~sample_vacuum_generation': hook_vacgen},
             what='HLLC Galilean boost: the flux through a face moving with velocity w equals the rest-frame flux (states boosted by -w, static face) transformed with m\'=m, p\'=p+m w, E\'=E+w.p+|w|^2 m/2, term by term (%s)' % case.lower(),
-            bound='gamma in (1.00000001,2], densities/pressures >= 0, velocities and face velocity arbitrary reals in the stated domain, normal = %s; loop-free; ties excluded' % (normals[0],)))
+            bound='gamma in (1.00000001,2], densities/pressures >= 0, velocities and face velocity arbitrary reals in the stated domain, normal = %s; loop-free; ties excluded' % (NORMALS[n],)))
     for nm, entry, what in (('S3_vacuum_eq_exact', 'h_s3_hllc_eq_exact_vacuum', 'one-sided vacuum: HLLC samples the same state (flag, rho, u, P as terms) as the exact solver at x/t=0'),
                             ('S3_vacgen_eq_exact', 'h_s3_hllc_eq_exact_vacgen', 'vacuum generation: HLLC samples the same state as the exact solver at x/t=0')):
         H.append(BHarness(nm, 'c11_exact.cpp', entry, tie_free=True, strict=True, timeout=900, what=what, bound='gamma in (1.00000001,2]; rho,P,a in [2^-100,2^100], u zero or within that range; loop-free; ties excluded'))
